@@ -66,6 +66,9 @@ func (u *Universe) frameObligations(prop string) []FrameResult {
 	for _, r := range u.frameAssigns(prop) {
 		out = append(out, r)
 	}
+	for _, r := range u.frameMustReadAll(prop) {
+		out = append(out, r)
+	}
 	sort.Slice(out, func(i, j int) bool { return out[i].Name < out[j].Name })
 	return out
 }
